@@ -425,3 +425,28 @@ Print Assumptions C02_convergence_upwind_cartesian_nD.
 (* non-vacuity: Theory/ConvUpwindNDThy.convergence_upwind_nD_hyps_satisfiable (3 x 3 Grid2D mesh, middle cell, velocity (1,1), constant field) *)
 Example C02_convergence_upwind_nD_nonvacuous_checked : True.
 Proof. pose proof convergence_upwind_nD_hyps_satisfiable. exact I. Qed.
+
+(* ---- the same for the three Cartesian classes with the metric hypotheses DISCHARGED from the model's mesh (mfac = mA = 1, mW = mDX by
+   definition on Grid1D / Grid2D / Grid3D): only the uniform spacing, the data and the closure remain as hypotheses ---- *)
+Theorem C02_convergence_grid_nD : forall (m : Mesh ROps) (D u : fvar ROps) (kap x e : cvar ROps) (g : cell -> axis -> R -> R)
+  (cells : list cell) (h M : axis -> R) (d k0' : R),
+  mcls ROps m = G1 \/ mcls ROps m = G2 \/ mcls ROps m = G3 ->
+  cells <> nil ->
+  (forall c a, In c cells -> In a (active_axes ROps m) -> (1 <= cidx a c <= mN ROps m a)%nat /\ signs_ok m D c a) ->
+  (forall a c, u a c = 0%R) ->
+  (forall a, In a (active_axes ROps m) -> (0 < h a)%R) -> (0 <= d)%R -> (0 < k0')%R -> (forall c, In c cells -> (k0' <= kap c)%R) ->
+  (forall c a, In c cells -> In a (active_axes ROps m) ->
+     mdxf ROps m a (cidx a c) = h a /\ mdxf ROps m a (pred (cidx a c)) = h a /\ mDX ROps m a (cidx a c) = h a /\
+     D a c = d /\ D a (cdn a c) = d) ->
+  (forall c a t k, (k <= 4)%nat -> ex_derive_n (g c a) k t) ->
+  (forall c a t, (Rabs (Derive_n (g c a) 4 t) <= M a)%R) ->
+  (forall c a, In c cells -> In a (active_axes ROps m) ->
+     e (cdn a c) = g c a (0 - h a)%R /\ e c = g c a 0%R /\ e (cup a c) = g c a (0 + h a)%R) ->
+  (forall c, In c cells ->
+     Lrow m D u kap x c = (kap c * e c - rsuml (fun a => d * Derive_n (g c a) 2 0) (active_axes ROps m))%R) ->
+  (forall c a, In c cells -> In a (active_axes ROps m) ->
+     nb_homog cells (fun c => (x c - e c)%R) c (cdn a c) /\ nb_homog cells (fun c => (x c - e c)%R) c (cup a c)) ->
+  forall c, In c cells ->
+    (Rabs (x c - e c) <= rsuml (fun a => d * (M a * (h a * h a) / 12)) (active_axes ROps m) / k0')%R.
+Proof. exact convergence_grid_nD. Qed.
+Print Assumptions C02_convergence_grid_nD.
